@@ -87,6 +87,7 @@ package interp
 //@   opt opaque-calls = *
 //@   opt opaque-havoc = none
 //@   opt fn-values = pure
+//@   modifies nothing
 //@   ensures accepted-only-if-the-operator-is-defined-on-the-type: err == nil ==> has(p, a) && p[a] != nil && p[a](t)
 //@   ensures defined-operator-is-accepted: has(p, a) && p[a] != nil && p[a](t) ==> err == nil
 //@   canary err == nil
@@ -99,6 +100,7 @@ package interp
 //@   opt opaque-calls = *
 //@   opt opaque-havoc = none
 //@   requires [assume] n != nil && len(n.child) == 2 && n.child[0] != nil && n.child[1] != nil && n.child[0].typ != nil && n.child[1].typ != nil
+//@   modifies n.child[0].rval, n.child[1].rval, n.child[1].typ
 //@   ensures left-operand-is-an-integer: err == nil ==> isInt(old(n.child[0].typ).TypeOf()) || (old(n.child[0].typ.untyped && n.child[0].rval.IsValid()) && constKind(constToInt(old(cOf(n.child[0].rval)))) == 3)
 //@   ensures count-is-an-integer: err == nil ==> old(n.child[1].typ.untyped) || isInt(old(n.child[1].typ).TypeOf())
 //@   canary err == nil ==> isInt(old(n.child[0].typ).TypeOf())
